@@ -281,12 +281,24 @@ class CallMixin:
             con = self.find_contract(owner, func.__name__)
         if con is not None and con is not self.current_contract_entry(func):
             recv = args[0] if args else None
-            if not (con.inline_when_known and self.receiver_known(recv)):
+            if isinstance(recv, Rec) and not recv.done and self.contract_mentions_receiver(con):
+                pass        # an object under construction is not a value yet: run the real body
+            elif not (con.inline_when_known and self.receiver_known(recv)):
                 return self.call_contract(con, list(args), kwargs, fr, node)
         if (is_concrete(args) and is_concrete(kwargs) and not func.__code__.co_filename.startswith('<attrs')
                 and mod.startswith('hpl')):
             return self.native_call(func, args, kwargs, fr, node)
         return self.inline(func, args, kwargs, fr, node, qual)
+
+    def contract_mentions_receiver(self, con):
+        func, fnode, is_ctor, owner, raw = self.contract_target(con)
+        if not fnode.args.args:
+            return False
+        first = fnode.args.args[0].arg
+        clauses = list(con.requires) + list(con.ensures) + list(con.raises.values()) + list(con.result_is)
+        if con.returns is not None:
+            clauses.append(con.returns)
+        return any(first in [a.arg for a in c.node.args.args] for c in clauses)
 
     def receiver_known(self, recv):
         if isinstance(recv, Rec):
